@@ -63,6 +63,19 @@ def one_kind(kind: str, reps: int, flush_every: int) -> Dict[str, Any]:
                 hist.append(fe)
             else:
                 hist.append({"s": "loop", "start": 0, "stop": 2, "step": 1, "form": "ctx", "body": [fe, {"s": "add", "t": fut("A2", lv(1)), "o": c(1), "mod": 5}]})
+        elif kind == "held-register":
+            # a register the application asked for once and keeps: later operations (in later subroutines too) index an array
+            # with it while they need counters and temporaries of their own
+            if r == 0:
+                hist.append({"s": "hold", "h": "G1", "v": 1})
+                hist.append({"s": "flush"})
+            gi = {"k": "fut", "a": "A2", "i": {"k": "reg", "h": "G1"}}
+            if r % 3 == 0:
+                hist.append({"s": "add", "t": gi, "o": c(5), "mod": 11})
+            elif r % 3 == 1:
+                hist.append({"s": "loop", "start": 0, "stop": 2, "step": 1, "form": "ctx", "body": [{"s": "add", "t": gi, "o": lv(1), "mod": 13}]})
+            else:
+                hist.append({"s": "foreach", "a": "A1", "enum": bool(r % 2), "body": [{"s": "add", "t": gi, "o": fut("A1", lv(1)), "mod": 7}]})
         elif kind == "until":
             nq += 1
             na += 1
@@ -148,7 +161,7 @@ def long_history(rng: random.Random, nops: int, flush_every: int) -> Dict[str, A
     return {"history": hist, "meas": [rng.randrange(2) for _ in range(g.meas_used + 8)], "kind": "mixed"}
 
 
-KINDS = ["ez", "nz", "eq", "ne", "lt", "ge", "if-two-futures", "loop", "loop-named-register", "foreach", "foreach-same-context-object", "until", "add-constants", "add-future", "future-indexed-by-future", "measure-array", "measure-register", "measure-register-nonblocking-flush", "register-add-future", "measure-into-the-same-register-future", "nested", "empty-bodies"]
+KINDS = ["ez", "nz", "eq", "ne", "lt", "ge", "if-two-futures", "loop", "loop-named-register", "foreach", "foreach-same-context-object", "held-register", "until", "add-constants", "add-future", "future-indexed-by-future", "measure-array", "measure-register", "measure-register-nonblocking-flush", "register-add-future", "measure-into-the-same-register-future", "nested", "empty-bodies"]
 
 
 EPR_KINDS = ["create_keep", "create_keep_with_info", "recv_keep", "create_keep_sequential", "recv_keep_sequential", "create_context", "recv_context",
